@@ -1,10 +1,10 @@
 (* C16 - Only returning Noble-native tokens are processed, under the coin ICS-20 credits.
    String-level theorems (proofs: Proofs/DenomProofs.v).  [trace_path d] is ibc-go's
    ParseDenomTrace(d).Path; [ics20_credit_denom] transcribes what relay.go does with the denom.
-   The end-to-end part (the coin acted on, forwarded and recorded is the credited coin) is
-   C16_coin in Props/C16.v's second half, stated on the pipeline model. *)
+   The end-to-end part is stated on the pipeline model: C16_coin, C16_foreign_refused. *)
 From Coq Require Import String List ZArith Bool.
-From Orbiter Require Import Lib.Str Lib.Res Model.Denom Proofs.DenomProofs.
+From Orbiter Require Import Lib.Str Lib.Res Gen.Constants Model.Env Model.Denom Model.Payload Model.State Model.Pipeline
+     Proofs.DenomProofs Proofs.TransferProps Proofs.NoPanic Props.Examples.
 Import ListNotations.
 Open Scope string_scope.
 
@@ -31,6 +31,46 @@ Theorem C16_denom_never_panics : forall denom port chan,
   is_panic (recover_native_denom denom port chan) = false.
 Proof. exact recover_never_panics. Qed.
 Print Assumptions C16_denom_never_panics.
+
+(* end to end, on the receive pipeline: a transfer succeeds only on a token that [recover_native_denom]
+   accepts - the one ICS-20 releases from the channel escrow - and that denomination is the one swept,
+   charged, forwarded and left at zero on the orbiter account *)
+Theorem C16_coin : forall cfg e w p tape,
+  wf_cfg cfg ->
+  rr_out (recv cfg e w p tape) = OAckOk ->
+  exists denom amount sender receiver pl d,
+    pk_data p = PIcs denom amount sender receiver (Ok pl) /\
+    recover_native_denom denom (pk_sport p) (pk_schan p) = Ok d /\
+    ics20_credit_denom denom (pk_sport p) (pk_schan p) = Unescrow d /\
+    bal (w_l (rr_world (recv cfg e w p tape))) (cfg_orbiter cfg) d = 0.
+Proof.
+  intros cfg e w p tape Hwf Hok.
+  destruct (success_clears cfg e w p tape Hwf Hok) as (denom & amount & sender & receiver & pl & d & Hd & _ & Hr & Hb & _).
+  exists denom, amount, sender, receiver, pl, d. repeat split; try assumption. apply recover_agrees_with_ics20. exact Hr.
+Qed.
+Print Assumptions C16_coin.
+
+(* a packet addressed to the orbiter account (any spelling) with any other token - a voucher of another
+   channel or port, a multi-hop trace, an ibc/ hash, a token native to the sender - is REFUSED by the
+   orbiter with an error acknowledgement and an unchanged world; it is not handed to ICS-20, which would
+   credit it to the orbiter account *)
+Theorem C16_foreign_refused : forall cfg e w p tape denom amount sender receiver memo,
+  wf_cfg cfg ->
+  pk_data p = PIcs denom amount sender receiver memo ->
+  e_bech32 e receiver = Some (cfg_orbiter cfg) ->
+  is_panic memo = false ->
+  is_ok (recover_native_denom denom (pk_sport p) (pk_schan p)) = false ->
+  exists l, rr_out (recv cfg e w p tape) = OAckErr l /\ rr_world (recv cfg e w p tape) = w.
+Proof.
+  intros cfg e w p tape denom amount sender receiver memo Hwf Hd Hr Hm Hbad.
+  destruct (rr_out (recv cfg e w p tape)) as [|l|b|x] eqn:E.
+  - exfalso. destruct (success_clears cfg e w p tape Hwf E) as (denom' & amount' & sender' & receiver' & pl & d & Hd' & _ & Hrec & _).
+    rewrite Hd in Hd'. inversion Hd'; subst. rewrite Hrec in Hbad. discriminate.
+  - exists l. split; [reflexivity|]. unfold recv in *. apply (recv_err_unchanged _ _ _ _ _ _ _ E).
+  - exfalso. unfold recv in E. eapply orbiter_packet_not_delegated; eauto.
+  - exfalso. unfold recv in E. eapply recv_never_panics; [|exact E]. unfold memo_of. rewrite Hd. exact Hm.
+Qed.
+Print Assumptions C16_foreign_refused.
 
 Example C16_ex :
   recover_native_denom "transfer/channel-7/uusdc" "transfer" "channel-7" = Ok "uusdc" /\
